@@ -34,7 +34,7 @@ type GenOpts struct {
 	MidBias         bool // favour files of several blocks and edited files (series with many messages)
 }
 
-var dirPool = []string{"", "", "a", "a/b", "c", "a/b/d", "e", "..cache"}
+var dirPool = []string{"", "", "a", "a/b", "c", "a/b/d", "e", "..cache", "50% off"}
 var namePool = []string{"f0", "f1", "f2", "f3", "f4", "f5", "f6", "f7", "x", "x.dat", "lib.so", "data.bin", "F0", "X", "Data.bin",
 	// a name close to the 255-byte limit of a path component, and names that look like the temporary
 	// names an implementation might derive from other names
@@ -43,7 +43,9 @@ var namePool = []string{"f0", "f1", "f2", "f3", "f4", "f5", "f6", "f7", "x", "x.
 	// ("a.pak" < "a/f0"), but after it in walk order
 	"a.pak", "a b", "c-1", "e.d",
 	// names that begin like the parent directory does, or are made of dots (legal: neither "." nor "..")
-	"..data", "...", ".x"}
+	"..data", "...", ".x",
+	// names that are not well-formed URLs or would be read as one (a stray percent sign, a scheme)
+	"100% x.bin", "save-50%.dat", "a:b", "q?x#y"}
 
 var longName = "L" + strings.Repeat("o", 243) + "g"
 
